@@ -207,7 +207,11 @@ package corerad
 //@   requires P0: ctx != nil && onMessage != nil && listenerOK(l)
 //@   assigns everything
 //@   at call Go(g, f): ghost.egNeeds = egNeedSet(ghost.egNeeds, g, ctx.val)
-//@   at call receiveRetry(rl, rctx) (rm, rhost, rerr): ghost.lastM = rm ; ghost.lastHost = rhost
+//@   ghost local pending Bool
+//@   at call receiveRetry(rl, rctx) (rm, rhost, rerr): ghost.lastM = rm ; ghost.lastHost = rhost ; ghost.pending = (rerr == nil)
+//@   at call onMessage(dmsg): ghost.pending = false
+//@   loop 1 invariant L1 [C07,C18]: !ghost.pending
+//@   ensures E1 [C07,C18]: !ghost.pending
 //@   at call onMessage(msg): assert D1 [C09]: msg.Message == ghost.lastM && msg.Message != nil && ghost.lastHop == 255 ; assert Z1 [C18,C07]: msg.Host == addrWithZone(ghost.lastHost, "")
 //@   loop 1 invariant L0 [C10]: l != nil && listenerOK(l) && ctx != nil && egNeed(ghost.egNeeds, addr(eg)) == ctx.val && cancelOf(cancel) == ctx.val
 //@   opt safety [C09,C10]
@@ -811,7 +815,10 @@ package corerad
 //@   at call Go(g, f) when isClosure(f, "corerad.(*Advertiser).advertise$1"): assert G1 [C05,C06,C07,C10]: !ghost.s1 && !ghost.waited ; ghost.s1 = true
 //@   at call Go(g, f) when isClosure(f, "corerad.(*Advertiser).advertise$2"): assert G2 [C05,C07,C10]: !ghost.s2 && !ghost.waited && !a.cfg.UnicastOnly ; ghost.s2 = true
 //@   at call Go(g, f) when isClosure(f, "corerad.(*Advertiser).advertise$3"): assert G3 [C05,C07,C09,C10]: !ghost.s3 && !ghost.waited ; ghost.s3 = true
-//@   at call linkStateWatcher(lctx, lw) (lf): assert G4 [C10]: !ghost.s4 && !ghost.waited && lw == a.watchC && lctx != nil ; ghost.s4 = true
+//@   ghost local egCtx Iface
+//@   ghost local egMade Bool
+//@   at call WithContext(wp) (wg, wc): ghost.egCtx = wc ; ghost.egMade = true
+//@   at call linkStateWatcher(lctx, lw) (lf): assert G4 [C10]: !ghost.s4 && !ghost.waited && lw == a.watchC && lctx != nil ; assert G5 [C10]: ghost.egMade && lctx == ghost.egCtx ; ghost.s4 = true
 //@   at call Wait(g) (werr): assert W1 [C05,C07,C10]: ghost.s1 && ghost.s3 && ghost.s4 && ghost.s2 == !a.cfg.UnicastOnly && !ghost.waited ; ghost.waited = true
 //@   ensures E1: result != nil
 //@   ensures E2 [C05,C07,C10]: ghost.waited
@@ -962,7 +969,10 @@ package corerad
 //@   assigns everything
 //@   opt assume E1
 //@   at call Go(g, f) when isClosure(f, "corerad.(*Monitor).monitor$1"): assert G1 [C18]: !ghost.s1 && !ghost.waited ; ghost.s1 = true
-//@   at call linkStateWatcher(lctx, lw) (lf): assert G2 [C18]: !ghost.s2 && !ghost.waited && lw == m.watchC ; ghost.s2 = true
+//@   ghost local egCtx Iface
+//@   ghost local egMade Bool
+//@   at call WithContext(wp) (wg, wc): ghost.egCtx = wc ; ghost.egMade = true
+//@   at call linkStateWatcher(lctx, lw) (lf): assert G2 [C18]: !ghost.s2 && !ghost.waited && lw == m.watchC ; assert G3 [C10]: ghost.egMade && lctx == ghost.egCtx ; ghost.s2 = true
 //@   at call Wait(g) (werr): assert W1 [C18]: ghost.s1 && ghost.s2 && !ghost.waited ; ghost.waited = true
 //@   ensures E1: result != nil
 //@   ensures E2 [C18]: ghost.waited
